@@ -120,13 +120,13 @@ def c13(tier, seed):
     cfgs = ['mem'] if tier == 'quick' else ['mem', 'alt:/a', 'altalt']
     ucases = step_cases(cfgs, 'U5', ALL_OPS, ['C13'], tier, seed, dlens=[1])
     if tier != 'quick':
-        ucases += step_cases(['mem'], 'U8', ALL_OPS, ['C13'], tier, seed, dlens=[1], max_shapes=200)
+        ucases += step_cases(['mem'], 'U8', ALL_OPS, ['C13'], tier, seed, dlens=[1], max_shapes=80)
         ucases += step_cases(['mem'], 'U5', ALL_OPS, ['C13'], tier, seed, dlens=[1], release=True)
     ck.add(run_cases(prog, onestep.run_step_case, ucases), 'every operation (wrong types, root, composites) on every path from every well-formed tree')
     scases = step_cases(['mem'] if tier == 'quick' else ['mem', 'alt:/a'], 'USYM', ALL_OPS, ['C13'], tier, seed, dlens=[1])
     ck.add(run_cases(prog, onestep.run_step_case, scases), 'same in symbolic-name mode (names are solver variables incl. multi-byte characters; siblings may be prefixes of each other)')
     # (the 4-step scripts of the thorough tier run with dev arithmetic; release arithmetic at the 3-step size)
-    rc = reader_cases(tier, 'C13') + reader_cases('quick', 'C13', release=True)
+    rc = [c_ for c_ in reader_cases(tier, 'C13') if not (c_['k'] >= 4 and c_['clen'] > 2)] + reader_cases('quick', 'C13', release=True)
     ck.add(run_cases(prog, handles.run_reader_case, rc), 'reader scripts with any 64-bit offset, zero-length buffers; dev and release arithmetic')
     ck.add(run_cases(prog, handles.run_writer_case, writer_cases(tier, 'C13')), 'writer sessions')
     ck.add(run_cases(prog, handles.run_lifecycle_case, [{'cfg': c} for c in ['mem', 'alt', 'ovl_upper', 'ovl_lower']]), 'handles used after their file was removed')
@@ -141,8 +141,14 @@ def c13(tier, seed):
     ck.add(run_cases(prog, altroot.run_confine_case, mc), 'an altroot whose directory P does not exist (a filesystem without a root): no operation panics')
     # the pure path functions (join/parent/filename/extension) on symbolic strings: no input makes them panic
     from . import c06 as c06mod
-    la6, lb6 = (5, 5) if tier == 'quick' else (7, 6)
-    pk = [{'la': la_, 'lb': lb_, 'panic_only': True, 'prop': 'C13'} for la_ in range(la6 + 1) for lb_ in range(lb6 + 1)]
+    la6, lb6 = (5, 5) if tier == 'quick' else (6, 6)
+    pk = []
+    for la_ in range(la6 + 1):
+        for lb_ in range(lb6 + 1):
+            if la_ >= 5:
+                pk += [{'la': la_, 'lb': lb_, 'panic_only': True, 'prop': 'C13', 'first': f_} for f_ in c06mod.ALPHA if f_ != 0xa9]
+            else:
+                pk.append({'la': la_, 'lb': lb_, 'panic_only': True, 'prop': 'C13'})
     ck.add(run_cases(prog, c06mod.run_case, pk), 'join/parent/filename/extension on symbolic base and argument strings (|arg| <= %d, |base| <= %d): no panic' % (la6, lb6))
     # panics that need an interleaving: two threads, one call each on overlapping paths of one MemoryFS, every schedule
     from . import threads
